@@ -77,7 +77,10 @@ Verdict(o) ==
        LET w == MustWitness(G) IN
        IF w # {} THEN
             \* known finding F6: the cycle is only seen when every alternative of a choice is visited
-            <<IF ~impl /\ Analyse(G, AsF6Repaired, WOrder(G)).reject THEN "accepted-left-recursion-F6" ELSE "accepted-left-recursion",
+            \* known finding F22: the cycle closes through a throw that runs a recovery expression in force around it
+            <<IF ~impl /\ Analyse(G, AsF6Repaired, WOrder(G)).reject THEN "accepted-left-recursion-F6"
+              ELSE IF ~impl /\ Analyse(G, AsF22Repaired, WOrder(G)).reject THEN "accepted-left-recursion-F22"
+              ELSE "accepted-left-recursion",
               CHOOSE ii \in w : TRUE>>
        ELSE IF impl THEN <<"model-drift", 0>> ELSE <<"same", 0>>
   ELSE IF ~MayCycle(G) THEN <<"rejected-without-cycle", 0>>
